@@ -37,7 +37,8 @@ type c01Meta struct {
 	Injected bool      `json:"injected"`
 	FileTabs []string  `json:"file_tabs"` // file tables existing and committed after the whole program
 	Rows     int       `json:"rows"`
-	Files    []string  `json:"files,omitempty"` // file names of t0 and t1 (their extension is their format)
+	Files    []string  `json:"files,omitempty"`  // file names of t0 and t1 (their extension is their format)
+	Refuse   string    `json:"refuse,omitempty"` // the scenario is built so that COMMIT must refuse one table at encoding time: ltsv-empty | jsonl-key | sjis-rune
 }
 
 // benignTableAs re-writes a header + rows CSV text without quotes in another
@@ -222,6 +223,21 @@ func genC01(seed uint64) (*Scenario, *c01Meta) {
 			f1 = fr.PickS("tsv", "ltsv", "json", "jsonl")
 		}
 	}
+	// 10 %: one of the tables cannot be encoded when it is written back (an LTSV table
+	// without records, a JSON Lines table with a key that is no valid path, a character
+	// the table's encoding lacks): COMMIT refuses with an error, and must refuse
+	// completely - the other tables of the transaction included
+	if fr.Bool(0.1) {
+		m.Refuse = fr.PickS("ltsv-empty", "jsonl-key", "sjis-rune")
+		switch m.Refuse {
+		case "ltsv-empty":
+			f0 = "ltsv"
+		case "jsonl-key":
+			f1 = "jsonl"
+		case "sjis-rune":
+			f0 = "csv"
+		}
+	}
 	rows1 := r.Range(0, 8)
 	if f0 != "csv" && f0 != "tsv" && f0 != "fixed" && m.Rows == 0 {
 		m.Rows = 1 // formats without a header line: an empty file has no columns
@@ -232,13 +248,29 @@ func genC01(seed uint64) (*Scenario, *c01Meta) {
 	// formats without a header line lose their columns when the last row goes
 	// (LTSV refuses to write, JSON writes []): two rows no statement deletes
 	anchor := func(f, text string) string {
+		if m.Refuse == "ltsv-empty" && f == "ltsv" {
+			return text
+		}
 		if f == "ltsv" || f == "json" || f == "jsonl" {
 			return text + "50,1,owl\n51,2,pig\n"
 		}
 		return text
 	}
 	e0, c0 := benignTableAs(anchor(f0, c01Table(m.Rows, 0)), f0)
-	e1, c1 := benignTableAs(anchor(f1, c01Table(rows1, 2)), f1)
+	t1text := anchor(f1, c01Table(rows1, 2))
+	if m.Refuse == "jsonl-key" {
+		// a fourth column whose name is legal JSON but no valid path for csvq's JSON writer
+		ls := strings.Split(strings.TrimRight(t1text, "\n"), "\n")
+		for i := range ls {
+			if i == 0 {
+				ls[i] += ",c."
+			} else {
+				ls[i] += ",7"
+			}
+		}
+		t1text = strings.Join(ls, "\n") + "\n"
+	}
+	e1, c1 := benignTableAs(t1text, f1)
 	m.Files = []string{"t0" + e0, "t1" + e1}
 	g.csvTabs = nil
 	if f0 == "csv" {
@@ -356,6 +388,14 @@ func genC01(seed uint64) (*Scenario, *c01Meta) {
 			}
 			g.dump("rollback", g.lastCom)
 		}
+	}
+	switch m.Refuse {
+	case "ltsv-empty":
+		g.lines = append(g.lines, "UPDATE t1 SET n = n + 1;", "DELETE FROM t0;")
+	case "jsonl-key":
+		g.lines = append(g.lines, "UPDATE t0 SET n = n + 1;", "UPDATE t1 SET n = n + 1;")
+	case "sjis-rune":
+		g.lines = append(g.lines, "UPDATE t1 SET n = n + 1;", "ALTER TABLE t0 SET ENCODING TO SJIS;", "INSERT INTO t0 (id, n, s) VALUES (777, 1, '€uro');")
 	}
 	m.Ending = r.PickS("normal", "normal", "fail", "fail", "exit", "cancel", "cancel")
 	switch m.Ending {
@@ -559,6 +599,11 @@ func (c01) Eval(t *testing.T, c *Case, dec func(int) *Decider) *Outcome {
 		// documented error, which makes this an ending by error
 		ending = "fail"
 		o.Stats.probe("fixed-length-commit-refused")
+	}
+	if ending == "normal" && p.ExitCode != 0 && meta.Refuse != "" && strings.Contains(p.ErrText, "failed to commit") {
+		// the table that cannot be encoded: COMMIT refuses, which makes this an ending by error
+		ending = "fail"
+		o.Stats.probe("commit-refused-at-encoding:" + meta.Refuse)
 	}
 	if (ending == "normal") && p.ExitCode != 0 {
 		o.viol(prop, "scenario", "scenario-error:"+errClass(p.ErrText), "a procedure that should end normally failed: "+p.ErrText)
